@@ -29,6 +29,8 @@ POS = {
     "comment": ("CREATE TABLE t1 (a int, b varchar(50) COMMENT {L}, c int);", lambda r: r[0]["columns"][1]["comment"]),
     "check": ("CREATE TABLE t1 (a int, b varchar(50), c int, CHECK (b <> {L}));", lambda r: r[0]["checks"][0]["statement"]),
     "col_check": ("CREATE TABLE t1 (a int, b varchar(50) CHECK (b <> {L}), c int);", lambda r: r[0]["columns"][1]["check"]),
+    "default_then_comment": ("CREATE TABLE t1 (a int, b varchar(50) DEFAULT {L} COMMENT 'plain note', c int DEFAULT 'z');", lambda r: r[0]["columns"][1]["default"]),
+    "comment_after_default": ("CREATE TABLE t1 (a int DEFAULT 'q', b varchar(50) NOT NULL COMMENT {L}, c int);", lambda r: r[0]["columns"][1]["comment"]),
     "enum": ("CREATE TYPE ty1 AS ENUM ('first', {L}, 'last');", lambda r: r[0]["properties"]["values"][1]),
     "option": ("CREATE TABLE t1 (a int, b varchar(50), c int) LOCATION {L};", lambda r: r[0]["table_properties"]["location"]),
 }
